@@ -162,3 +162,38 @@ func (w *World) HonestRun(ctx context.Context, hops int, suite kex.Suite, cipher
 	}
 	return log, to1d, nil
 }
+
+// Agree checks that a stored voucher verifies against the credential a device holds: header MAC under the
+// device secret, manufacturer-key hash, GUID, rendezvous info and device-certificate hash, with the library's
+// own Verify* methods. It returns "" or the first disagreement.
+func Agree(cred *fdo.DeviceCredential, dev *Device, voucher []byte) string {
+	var ov fdo.Voucher
+	if err := cbor.Unmarshal(voucher, &ov); err != nil {
+		return "stored voucher does not decode: " + err.Error()
+	}
+	h256, h384 := dev.Hmacs()
+	if err := ov.VerifyHeader(h256, h384); err != nil {
+		return "VerifyHeader: " + err.Error()
+	}
+	if err := ov.VerifyManufacturerKey(cred.PublicKeyHash); err != nil {
+		return "VerifyManufacturerKey: " + err.Error()
+	}
+	if ov.Header.Val.GUID != cred.GUID {
+		return fmt.Sprintf("GUID %x in voucher, %x in credential", ov.Header.Val.GUID, cred.GUID)
+	}
+	a, _ := cbor.Marshal(ov.Header.Val.RvInfo)
+	b, _ := cbor.Marshal(cred.RvInfo)
+	if !bytes.Equal(a, b) {
+		return fmt.Sprintf("rendezvous info differs: voucher %x credential %x", a, b)
+	}
+	if ov.Header.Val.DeviceInfo != cred.DeviceInfo {
+		return "device info differs"
+	}
+	if err := ov.VerifyCertChainHash(); err != nil {
+		return "VerifyCertChainHash: " + err.Error()
+	}
+	if err := ov.VerifyEntries(); err != nil {
+		return "VerifyEntries: " + err.Error()
+	}
+	return ""
+}
